@@ -316,6 +316,70 @@ def _save_loop_shape(S):
     raise ExtractError(f'BSP.save: the rebuild loop iterates over {ast.unparse(it)!r}: not understood')
 
 
+_MUTATORS = {'clear', 'pop', 'popitem', 'update', 'setdefault', 'append', 'extend', 'insert', 'remove', 'add', 'discard', 'sort'}
+
+
+def _instance_state(S, view_names):
+    """Attributes of a BSP object that the class mutates IN PLACE (self.X.clear(), self.X[k] = v, self.X[k].f = v,
+    the same through `instance.X` in ParsedLump): each must be bound per instance in __init__, and must not have a
+    mutable class-level default (one dict shared by every BSP object).  -> [(attr, assigned_in_init, class_mutable_default)]"""
+    def base_attr(e, names):
+        """e is `<name>.X` with name in names -> X"""
+        if isinstance(e, ast.Attribute) and isinstance(e.value, ast.Name) and e.value.id in names:
+            return e.attr
+        return None
+    mutated = []
+
+    def scan(fn, names):
+        for node in ast.walk(fn):
+            x = None
+            if isinstance(node, ast.Call) and isinstance(node.func, ast.Attribute) and node.func.attr in _MUTATORS:
+                x = base_attr(node.func.value, names)
+            elif isinstance(node, ast.Subscript) and isinstance(node.ctx, (ast.Store, ast.Del)):
+                x = base_attr(node.value, names)
+            elif isinstance(node, ast.Attribute) and isinstance(node.ctx, (ast.Store, ast.Del)) and isinstance(node.value, ast.Subscript):
+                x = base_attr(node.value.value, names)
+            if x is not None and x not in view_names and x not in mutated:
+                mutated.append(x)
+    for fn in S.funcs.values():
+        scan(fn, {'self'})
+    for n in S.classes['ParsedLump'].body:
+        if isinstance(n, ast.FunctionDef):
+            scan(n, {'instance'})
+    init = S.funcs.get('__init__')
+    if init is None:
+        raise ExtractError('BSP.__init__ not found')
+    in_init = set()
+    for node in ast.walk(init):
+        tgts = []
+        if isinstance(node, ast.Assign):
+            tgts = node.targets
+        elif isinstance(node, ast.AnnAssign) and node.value is not None:
+            tgts = [node.target]
+        for t in tgts:
+            a = base_attr(t, {'self'})
+            if a:
+                in_init.add(a)
+    class_mut = set()
+    for n in S.bsp.body:
+        name, val = None, None
+        if isinstance(n, ast.AnnAssign) and isinstance(n.target, ast.Name):
+            name, val = n.target.id, n.value
+            if 'ClassVar' in ast.unparse(n.annotation):
+                continue
+        elif isinstance(n, ast.Assign) and len(n.targets) == 1 and isinstance(n.targets[0], ast.Name):
+            name, val = n.targets[0].id, n.value
+        if name is None or val is None:
+            continue
+        if isinstance(val, (ast.Dict, ast.List, ast.Set, ast.ListComp, ast.DictComp, ast.SetComp)) or \
+                (isinstance(val, ast.Call) and ast.unparse(val.func) in ('dict', 'list', 'set', 'bytearray', 'defaultdict',
+                                                                           'WeakKeyDictionary', 'OrderedDict')):
+            class_mut.add(name)
+    if not mutated:
+        raise ExtractError('no in-place mutated attribute found in class BSP: not understood')
+    return [(a, a in in_init, a in class_mut) for a in mutated]
+
+
 def extract_c10(S):
     views = _views(S)
     names = [v[0] for v in views]
@@ -356,7 +420,8 @@ def extract_c10(S):
             'popkeys': [k for (_, k) in r.pops],
             'hdr_stores': [(l, f, 0) for (l, f) in r.hdr_stores] + [(l, f, 1) for (l, f) in w.hdr_stores],
         })
-    return {'views': out, 'order': order, 'write_order': worder, 'snapshot': snapshot}
+    return {'views': out, 'order': order, 'write_order': worder, 'snapshot': snapshot,
+            'instance_state': _instance_state(S, set(names))}
 
 
 def _nl(xs):
@@ -393,6 +458,10 @@ def section_c10(S):
     L.append('/-- lump header fields (version, flags, ...) assigned inside a reader (0) or writer (1): (view, lump, where, field). -/')
     L.append('def headerStores : List (Nat × Nat × Nat × String) := [' + ', '.join(
         f'({i}, {l}, {k}, {lean_string(f)})' for i, v in enumerate(d['views']) for (l, f, k) in v['hdr_stores']) + ']')
+    L.append('')
+    L.append('/-- attributes of a BSP object mutated in place by the class: (name, bound per instance in __init__, has a mutable class-level default). -/')
+    L.append('def instanceState : List (String × Bool × Bool) := [' + ', '.join(
+        f'({lean_string(a)}, {str(i).lower()}, {str(c).lower()})' for a, i, c in d['instance_state']) + ']')
     L.append('')
     L.append('/-- game-lump ids used as ParsedLump keys: lump id 64+i. -/')
     L.append('def gameLumpIds : List String := [' + ', '.join(lean_string(b.decode('latin-1')) for b in S.game_ids) + ']')
